@@ -331,12 +331,12 @@ def run(ctx):
                     '2 update exponents, histories of <= 4 calls') if q else
                    ('3 model + 1 observation parameters, 3 bound pairs, 2 factor pairs, 4 priors, 2 update exponents, '
                     'histories of <= 5 calls'),
-        behaviours='all histories of 3 calls over a reduced alphabet + 1200 preset histories (all 16 fitted subsets) + %d simulated behaviours of 14 calls over the full alphabet' % (300 if q else 3000),
+        behaviours='all histories of 3 calls over a reduced alphabet + 2175 preset histories (all 16 fitted subsets; modes in three spellings; last call also a vector one shorter / one longer than the fitted set) + %d simulated behaviours of 14 calls over the full alphabet' % (300 if q else 3000),
         traces='%d recorded call sequences of %d calls' % ((150, 25) if q else (1500, 30)),
         rejected_calls='unknown names; update_model with a vector of every wrong non-zero length up to one more than the '
                        'fitted set (exhaustive: all values of K; presets: one shorter / one longer for every fitted subset; '
                        'traces: up to two longer, as list / tuple / ndarray); set_mode with a string that is neither mode',
-        mode_spellings='linear, log, LOG' + ('' if q else ', Linear, Log, LINEAR, lOg') +
+        mode_spellings='linear, log, LOG' + ('' if q else ', Log, LINEAR') +
                        ' (exhaustive); all seven in the simulation; random upper/lower case in the recorded traces')
     ctx.assumptions = [
         'all linear quantities are powers of ten (exponents in the spec); float log10/10** are exact to 1e-12 on them',
